@@ -242,12 +242,39 @@ def scenarios():
     box['p'] = fdl.build(fdl.Partial(H.f1, s1=[fdl.ArgFactory(reenter)]))
     r = args_of(box['p']())
     return (args_of(box['inner'])['s1'][0] is not r['s1'][0]) or 're-entrant call shared a factory result'
-  for name, fn in [('positional-container-with-factory', s_positional_container_with_factory),
+  def s_interned_factory_results():
+    # factories returning objects that exist already (0, None, a constant tuple): containers that hold no
+    # factory are still passed through uncopied, call after call
+    plain_list, plain_dict = [0, None, 'x'], {'k1': [0], 'k2': (0, None)}
+    part = fdl.build(fdl.Partial(H.f1, s1=[fdl.ArgFactory(int), fdl.ArgFactory(lambda: None)],
+                                 s2=plain_list, s3=plain_dict))
+    a1, a2 = args_of(part()), args_of(part())
+    ok = (a1['s2'] is a2['s2'] and a1['s3'] is a2['s3'] and a1['s3']['k1'] is a2['s3']['k1']
+          and a1['s1'] is not a2['s1'] and a1['s1'] == [0, None])
+    return ok or f's2 same: {a1["s2"] is a2["s2"]}, s3 same: {a1["s3"] is a2["s3"]}, s1 fresh: {a1["s1"] is not a2["s1"]}'
+  def s_override_then_not():
+    # the first call overrides a factory argument, later calls do not: they still get fresh values
+    part = fdl.build(fdl.Partial(H.f1, s1=fdl.ArgFactory(list), s2=[fdl.ArgFactory(dict)]))
+    a0 = args_of(part(s1='override', s2='override'))
+    a1, a2 = args_of(part()), args_of(part())
+    ok = (a0['s1'] == 'override' and a1['s1'] == [] and a2['s1'] == [] and a1['s1'] is not a2['s1']
+          and a1['s2'] == [{}] and a1['s2'][0] is not a2['s2'][0])
+    return ok or f'{a0} / {a1} / {a2}'
+  def s_container_argument_order():
+    # several keyword arguments, a container with a factory not in the last position
+    part = fdl.build(fdl.Partial(H.f1, s1=[fdl.ArgFactory(lambda: 'first')], s2=(fdl.ArgFactory(lambda: 'second'),),
+                                 s3={'k': fdl.ArgFactory(lambda: 'third')}))
+    a = args_of(part())
+    return (a['s1'] == ['first'] and a['s2'] == ('second',) and a['s3'] == {'k': 'third'}) or f'{a}'
+  for name, fn in [('interned-factory-results', s_interned_factory_results),
+                   ('override-then-not', s_override_then_not),
+                   ('container-argument-order', s_container_argument_order),
+                   ('positional-container-with-factory', s_positional_container_with_factory),
                    ('call-fails-then-works', s_call_fails_then_works), ('reentrant-call', s_reentrant_call),
                    ('functools-reference', s_reference), ('partial-in-partial', s_partial_in_partial),
                    ('positional-args', s_positional), ('same-factory-twice', s_same_factory_twice_per_call)]:
     probe(name, fn)
-  return out, 7
+  return out, 10
 
 
 def main():
